@@ -21,6 +21,9 @@ type C06Case struct {
 	Others  int              `json:"others"`
 	Mode    string           `json:"mode"`
 	Encoded string           `json:"encoded"`
+	// NoAttrs: the first assertion carries no AttributeStatement (the service provider allows that:
+	// AllowMissingAttributes) while the later ones do — the conditions reported are still the FIRST assertion's.
+	NoAttrs bool `json:"noAttrs,omitempty"`
 }
 
 // otherConfigured are OTHER configured strings of the SP (entity ID, ACS, IdP issuer): plausible audience
@@ -149,6 +152,8 @@ func genC06(t *rapid.T) C06Case {
 			a.ProxyAudience = append(a.ProxyAudience, genAudienceValue(t, sp.Audience))
 		}
 	}
+	c.SP.AllowMissing = rapid.Bool().Draw(t, "allowMissingAttributes")
+	c.NoAttrs = c.SP.AllowMissing && rapid.Bool().Draw(t, "firstWithoutAttributes")
 	if rapid.IntRange(0, 5).Draw(t, "foreignCond") == 0 {
 		a.ForeignCond = rapid.SampledFrom([]int{1, 2, 4, 8, 16, 3, 12, 31}).Draw(t, "foreignBits")
 	}
@@ -161,6 +166,9 @@ func finishC06(c *C06Case, fail func(error)) {
 	f := &g.Model.Assertions[0]
 	f.Audiences, f.OneTimeUse, f.HasProxy, f.ProxyCount, f.ProxyAudience = c.First.Audiences, c.First.OneTimeUse, c.First.HasProxy, c.First.ProxyCount, c.First.ProxyAudience
 	f.ForeignCond = c.First.ForeignCond
+	if c.NoAttrs {
+		f.HasAttrStmt, f.Attrs = false, nil
+	}
 	switch c.Window {
 	case "not-yet-valid":
 		f.NotBefore = h.S(c.SP.Now().Add(time.Minute).UTC().Format(time.RFC3339))
@@ -224,7 +232,7 @@ func checkC06(c C06Case) h.Outcome {
 		}
 	}
 	o.NonTrivial = multi || emptyR || near || c.SP.Audience == ""
-	o.Classes = append(o.Classes, "window:"+c.Window, "mode:"+c.Mode, fmt.Sprintf("restrictions:%d", len(c.First.Audiences)), fmt.Sprintf("otu:%v", c.First.OneTimeUse), fmt.Sprintf("proxy:%v", c.First.HasProxy), fmt.Sprintf("others:%d", c.Others))
+	o.Classes = append(o.Classes, fmt.Sprintf("allowMissing:%v/firstNoAttrs:%v", c.SP.AllowMissing, c.NoAttrs), "window:"+c.Window, "mode:"+c.Mode, fmt.Sprintf("restrictions:%d", len(c.First.Audiences)), fmt.Sprintf("otu:%v", c.First.OneTimeUse), fmt.Sprintf("proxy:%v", c.First.HasProxy), fmt.Sprintf("others:%d", c.Others))
 	if emptyR {
 		o.Classes = append(o.Classes, "empty-restriction")
 	}
@@ -371,6 +379,26 @@ func TestC06_Grid(t *testing.T) {
 			c2.First.Audiences = [][]string{first, {strings.Join(first, sep) + sep}, first}
 			finishC06(&c2, func(err error) { t.Fatalf("harness: %v", err) })
 			cases = append(cases, c2)
+		}
+	}
+	// first assertion without AttributeStatement under AllowMissingAttributes, later ones with attributes and the
+	// opposite conditions
+	for i, l := range [][][]string{nil, {{"urn:other"}}, {{"https://sp.example.com/metadata"}}, {{"https://sp.example.com/metadata"}, {"urn:other"}}} {
+		for others := 1; others <= 2; others++ {
+			sp := h.BaseSP()
+			sp.AllowMissing = true
+			c := C06Case{SP: sp, Mode: []string{"response", "assertions", "skip"}[(i+others)%3], Window: "in", Others: others, NoAttrs: true}
+			if c.Mode == "skip" {
+				c.SP.Skip = true
+			}
+			c.First.Audiences = l
+			c.First.OneTimeUse = i%2 == 0
+			c.First.HasProxy = i%2 == 1
+			if c.First.HasProxy {
+				c.First.ProxyCount, c.First.ProxyAudience = h.S("3"), []string{"urn:first"}
+			}
+			finishC06(&c, func(err error) { t.Fatalf("harness: %v", err) })
+			cases = append(cases, c)
 		}
 	}
 	// look-alike elements of a foreign namespace among the conditions
